@@ -25,14 +25,20 @@ INNERS = {
     "In2": (("x", "y"), [("p", "op", 0), ("q", "op", 1)]),
     "InS2": (("x", "y"), [("s", "slice", 0), ("t", "str16", 1), ("n", "u8", None)]),
     "In3": (("x", "y", "z"), [("p", "op", 0), ("s", "slice", 1), ("q", "op", 2)]),
+    # a reference to an opaque that has a lifetime parameter of its own: the field lives in both slots
+    "InR": (("x", "y"), [("r", "oplref", (0, 1)), ("n", "u8", None)]),
 }
-FIELD_TY = {"op": "&'%s Op", "slice": "DiplomatSlice<'%s, u8>", "str16": "DiplomatStr16Slice<'%s>", "u8": "u8"}
+FIELD_TY = {"op": "&'%s Op", "slice": "DiplomatSlice<'%s, u8>", "str16": "DiplomatStr16Slice<'%s>", "u8": "u8", "oplref": "&'%s OpL<'%s>"}
+
+
+def _slots(i):
+    return () if i is None else (i if isinstance(i, tuple) else (i,))
 OUTER_LTS = ("a", "b")
 
 
 def inner_decl(name):
     lts, fields = INNERS[name]
-    fs = ", ".join("pub %s: %s" % (f, (FIELD_TY[k] % lts[i]) if i is not None else FIELD_TY[k]) for f, k, i in fields)
+    fs = ", ".join("pub %s: %s" % (f, (FIELD_TY[k] % tuple(lts[j] for j in _slots(i))) if i is not None else FIELD_TY[k]) for f, k, i in fields)
     return "    pub struct %s<%s> { %s }" % (name, ", ".join("'" + l for l in lts), fs)
 
 
@@ -74,14 +80,14 @@ class Outer:
     def labels_of(self, L):
         """identities `_fieldsForLifetime<L>` must return: inner fields living in a slot fed by L, plus the direct field"""
         lts, fields = INNERS[self.inner]
-        out = {"inner." + f for f, k, i in fields if i is not None and self.sigma[i] == L}
+        out = {"inner." + f for f, k, i in fields if any(self.sigma[j] == L for j in _slots(i))}
         if self.delta == L:
             out.add("o")
         return out
 
     def slot_has_slice(self, i):
         """only slots that hold slice fields need an arena tied to the borrowing lifetime"""
-        return any(k in ("slice", "str16") and j == i for _f, k, j in INNERS[self.inner][1])
+        return any(k in ("slice", "str16") and i in _slots(j) for _f, k, j in INNERS[self.inner][1])
 
     def shape(self):
         same = len(set(self.sigma)) < len(self.sigma)
@@ -108,7 +114,7 @@ def outers(tier, with_static):
 
 
 def program(os_):
-    L = ["#[diplomat::bridge]", "mod ffi {", "    #[diplomat::opaque]", "    pub struct Op(u8);"]
+    L = ["#[diplomat::bridge]", "mod ffi {", "    #[diplomat::opaque]", "    pub struct Op(u8);", "    #[diplomat::opaque]", "    pub struct OpL<'a>(&'a u8);"]
     L += [inner_decl(n) for n in INNERS]
     L += [o.decl() for o in os_]
     # one method per outer struct so that every backend has to generate it as a parameter type
@@ -270,6 +276,7 @@ for (const j of jobs) {
     const mk = (kind, label) => {
         let v;
         if (kind === "op") v = new api.Op(rt.internalConstructor, (nextPtr += 16), [1]);
+        else if (kind === "oplref") v = new api.OpL(rt.internalConstructor, (nextPtr += 16), [1], [1]);
         else if (kind === "slice") v = [1, 2, 3];
         else if (kind === "str16") v = new String("s-" + label).toString() + label;
         else v = 7;
